@@ -115,7 +115,7 @@ pub fn decode_schedule(c: &mut Choices) -> (GcSchedule, String, u64) {
 pub fn heavy_template(c: &mut Choices) -> (String, Vec<Sx>) {
     let n = 5 + c.below(60);
     let m = 2 + c.below(6);
-    let t = c.below(10);
+    let t = c.below(12);
     let src = match t {
         0 => format!("(define (build n) (let loop ((i 0) (acc '())) (if (< i n) (loop (+ i 1) (cons (* i i) acc)) acc))) (define keep (build {n})) (define (sum l) (if (null? l) 0 (+ (car l) (sum (cdr l))))) (let loop ((j 0)) (if (< j {m}) (begin (build {n}) (loop (+ j 1))) (sum keep)))"),
         1 => format!("(define v (make-vector {n} 0)) (let loop ((i 0)) (if (< i {n}) (begin (vector-set! v i (list i (vector i i) (number->string i))) (loop (+ i 1))) #t)) (list (vector-ref v 0) (vector-ref v (- {n} 1)) (vector-length v))"),
@@ -126,6 +126,8 @@ pub fn heavy_template(c: &mut Choices) -> (String, Vec<Sx>) {
         6 => format!("(define (strs n) (let loop ((i 0) (acc \"\")) (if (< i n) (loop (+ i 1) (string-append acc (number->string i))) acc))) (string-length (strs {n}))"),
         7 => format!("(define acc '()) (for-each (lambda (i) (set! acc (cons (delay (* i i)) acc))) '(1 2 3 4 5 6 7 8)) (let loop ((j 0)) (if (< j {m}) (begin (map (lambda (p) (force p)) acc) (loop (+ j 1))) (map force acc)))"),
         8 => format!("(define (nest n) (if (= n 0) '() (list (nest (- n 1)) n))) (define x (nest {m})) (define y (nest {m})) (list (equal? x y) (eq? x y) x)"),
+        10 => format!("(define (churn n) (let loop ((i 0)) (if (< i n) (begin (list i i) (loop (+ i 1))) 'ok))) (define (tag x) `(,x . the-end)) (define (label x) `(item ,x . \"tail\")) (define (vtag x) `(,x . #(1 v))) (churn {n}) (list (tag 1) (label 2) (vtag 3)) (churn {n}) (list (eq? (cdr (tag 4)) 'the-end) (cdr (label 5)) (cdr (vtag 6)))"),
+        11 => format!("(define (mk) (lambda (x) (case x ((lit-a lit-b) 'first) ((17 #\\z) \"second\") (else '(else-branch #(deep \"constant\")))))) (define f (mk)) (define (churn n) (let loop ((i 0)) (if (< i n) (begin (vector i) (loop (+ i 1))) 'ok))) (churn {n}) (list (f 'lit-b) (f 17) (f #\\z) (f 0)) (churn {n}) (list (f 'lit-a) (f 1))"),
         _ => format!("(define big (* 4294967296 4294967296 4294967296)) (define (bigs n) (let loop ((i 0) (acc '())) (if (< i n) (loop (+ i 1) (cons (* big i) acc)) acc))) (define bl (bigs {n})) (list (length bl) (car bl) `(q ,(car bl) #(1 ,(cadr bl))))"),
     };
     (format!("heavy-{}", t), read_all(&src).expect("template parses"))
